@@ -894,7 +894,19 @@ func (ex *Exec) intBinop(op token.Token, a, b *Term, xt, rt types.Type) Value {
 					if m.C.Sign() == 0 {
 						return Int{f.I64(0)}
 					}
+					// no common bits possible: x < lowest set bit of the mask
+					low := new(big.Int).And(m.C, new(big.Int).Neg(m.C))
+					if x.Lo != nil && x.Hi != nil && x.Lo.Sign() >= 0 && x.Hi.Cmp(low) < 0 {
+						return Int{f.I64(0)}
+					}
 				}
+			}
+		}
+		if op == token.AND_NOT && b.IsConst() && b.C.Sign() >= 0 {
+			// x &^ m == x when x has no bit of m
+			low := new(big.Int).And(b.C, new(big.Int).Neg(b.C))
+			if b.C.Sign() == 0 || (a.Lo != nil && a.Hi != nil && a.Lo.Sign() >= 0 && a.Hi.Cmp(low) < 0) {
+				return Int{a}
 			}
 		}
 		if op == token.OR {
@@ -951,6 +963,11 @@ func (ex *Exec) convert(x Value, from, to types.Type) Value {
 		case *types.Slice:
 			eb, _ := t.Elem().Underlying().(*types.Basic)
 			if eb != nil && eb.Kind() == types.Uint8 {
+				if v.Opq != nil || (v.Enc != nil && v.Enc.Kind != "hex") {
+					// bytes of an abstract string stay abstract
+					sv := v
+					return Slice{Blob: &Blob{Str: &sv, Empty: ex.tf.False}}
+				}
 				bs := ex.strBytes(v)
 				return ex.bytesSlice(bs)
 			}
@@ -969,6 +986,9 @@ func (ex *Exec) convert(x Value, from, to types.Type) Value {
 	case Slice:
 		if tb, ok := tu.(*types.Basic); ok && tb.Info()&types.IsString != 0 {
 			if v.Blob != nil {
+				if v.Blob.Str != nil {
+					return *v.Blob.Str
+				}
 				return Str{Opq: ex.newOpq("string(blob)", []Value{v})}
 			}
 			fs, _ := from.Underlying().(*types.Slice)
